@@ -122,19 +122,22 @@ pub fn products_check(s: &Sparse<Rat>, rows: usize, cols: usize, m: &SM, all_uni
             ensure!(lhs == rhs, "<y,Ax> = {} but <A^T y,x> = {}", lhs, rhs);
         }
     }
-    // scaling scales every product
-    let mut sc = clone_sparse(s);
-    let k = rq(-3, 2);
-    sc.scale(&k);
-    for x in xs.iter().take(4) {
-        let y = sc.multiply(&Vector::create(x.clone()));
-        let e: Vec<Rat> = model::matvec(&d, x).iter().map(|v| *v * k).collect();
-        ensure!(y.vec == e, "scaled multiply = {} expected {}", model::showv(&y.vec), model::showv(&e));
-    }
-    for y in ys.iter().take(3) {
-        let z = sc.transpose_multiply(&Vector::create(y.clone()));
-        let e: Vec<Rat> = model::matvec(&dt, y).iter().map(|v| *v * k).collect();
-        ensure!(z.vec == e, "scaled transpose_multiply = {} expected {}", model::showv(&z.vec), model::showv(&e));
+    // scaling scales every product (also by 0, 1 and -1) and every view of the scaled matrix
+    for k in [rq(-3, 2), r(0), r(1), r(-1)] {
+        let mut sc = clone_sparse(s);
+        sc.scale(&k);
+        for x in xs.iter().take(4) {
+            let y = sc.multiply(&Vector::create(x.clone()));
+            let e: Vec<Rat> = model::matvec(&d, x).iter().map(|v| *v * k).collect();
+            ensure!(y.vec == e, "multiply after scale({}) = {} expected {}", k, model::showv(&y.vec), model::showv(&e));
+        }
+        for y in ys.iter().take(3) {
+            let z = sc.transpose_multiply(&Vector::create(y.clone()));
+            let e: Vec<Rat> = model::matvec(&dt, y).iter().map(|v| *v * k).collect();
+            ensure!(z.vec == e, "transpose_multiply after scale({}) = {} expected {}", k, model::showv(&z.vec), model::showv(&e));
+        }
+        let scaled: SM = m.iter().map(|(key, v)| (*key, *v * k)).collect();
+        views_check(&sc, rows, cols, &scaled).map_err(|e| format!("after scale({}): {}", k, e))?;
     }
     Ok(())
 }
@@ -192,6 +195,9 @@ impl Sut for SpState {
         }
         if self.m.values().all(|v| v.n.abs() < 4) {
             a.push(SpAct::Scale(2));
+        }
+        if self.m.values().any(|v| !v.is_zero()) {
+            a.push(SpAct::Scale(0));
         }
         a.push(SpAct::Transpose);
         a
@@ -279,8 +285,25 @@ pub fn cell_value(i: usize, j: usize, cols: usize) -> Rat {
         r(k + 1)
     }
 }
+/// a state built by from_triplets from a row-descending triplet list: rows are stored in non-ascending order inside the columns
+pub fn unsorted_state(rows: usize, cols: usize, mode: Mode) -> SpState {
+    let mut m = SM::new();
+    let mut t: Vec<(usize, usize, Rat)> = vec![];
+    for i in (0..rows).rev() {
+        for j in 0..cols {
+            if (i + j) % 2 == 0 || i + 1 == rows {
+                t.push((i, j, r(1)));
+                m.insert((i, j), r(1));
+            }
+        }
+    }
+    SpState { s: Sparse::from_triplets(rows, cols, &mut t), rows, cols, m, mode }
+}
 pub fn run_bfs(ctx: &Ctx, name: &str, shapes: &[(usize, usize)], mode: Mode, depth: usize, cap: u64, cross: bool) {
-    let inits: Vec<SpState> = shapes.iter().map(|&(r, c)| empty_state(r, c, mode)).collect();
+    let mut inits: Vec<SpState> = shapes.iter().map(|&(r, c)| empty_state(r, c, mode)).collect();
+    // start from non-initial states too: storage orders that inserts alone never produce
+    inits.push(unsorted_state(3, 2, mode));
+    inits.push(unsorted_state(2, 3, mode));
     explore(ctx, name, inits.clone(), BfsOpts { max_depth: depth, state_cap: cap });
     if cross {
         crosscheck_stateright(ctx, name, inits, depth);
